@@ -22,7 +22,7 @@ for d in sorted(os.listdir(os.path.join(V, "seeded"))):
         "mechanism": agent.get("mechanism", ""),
         "needs_to_manifest": agent.get("needs_to_manifest", ""),
         "files_touched": agent.get("files_touched", []),
-        "origin": "independent sub-agent given only the property text and a scratch worktree" + ("; patch re-based by hand onto the repaired tree (original kept as patch.original-tree.diff)" if os.path.exists(os.path.join(p, "patch.original-tree.diff")) else ""),
+        "origin": "independent sub-agent given only the property text and a scratch worktree" + ("; " + open(os.path.join(p, "NOTE")).read().strip() if os.path.exists(os.path.join(p, "NOTE")) else "") + ("; patch re-based by hand onto the repaired tree (original kept as patch.original-tree.diff)" if os.path.exists(os.path.join(p, "patch.original-tree.diff")) else ""),
         "confirmed": {
             "ran": ["tools/verify_seed.sh seeded/%s %s  (scratch copies of /repo HEAD under /tmp, removed afterwards)" % (d, prop),
                     "go build ./... && go test -vet=off -count=1 ./...  with the patch (must pass)",
